@@ -259,6 +259,120 @@ fn check_access_map_agg(p: &PlCase, obs: &mut Obs) -> CheckResult {
     Ok(())
 }
 
+/// String columns: `&ChunkedArray<StringType>` is a view of `Option<&str>`; accessors, slices and the
+/// window-slice driver must agree with the Vec<Option<String>> holding the same logical sequence.
+fn check_strings(p: &PlCase, obs: &mut Obs) -> CheckResult {
+    use tevec::export::polars::prelude::StringChunked;
+    let strs: Vec<Option<String>> = p.c.x.iter().enumerate().map(|(i, v)| v.map(|f| format!("{}{}", "abcdefg".chars().nth(i % 7).unwrap(), (f as i64).rem_euclid(1000)))).collect();
+    let n = strs.len();
+    // chunked construction
+    let mut bounds = vec![0usize];
+    bounds.extend(p.cuts.iter().cloned());
+    bounds.push(n);
+    let mut ca: Option<StringChunked> = None;
+    for w in bounds.windows(2) {
+        let part: StringChunked = strs[w[0]..w[1]].iter().map(|s| s.as_deref()).collect();
+        match ca.as_mut() {
+            None => ca = Some(part),
+            Some(o) => {
+                if w[1] > w[0] {
+                    o.append(&part).unwrap();
+                }
+            },
+        }
+    }
+    let ca = ca.unwrap();
+    let view = &ca;
+    let want: Vec<Option<&str>> = strs.iter().map(|s| s.as_deref()).collect();
+    if GetLen::len(&view) != n {
+        return fail("string:len:polars", format!("len {} for {} strings", GetLen::len(&view), n));
+    }
+    for i in 0..n + 2 {
+        match Vec1View::get(&view, i) {
+            Ok(v) if i < n && v == want[i] => {},
+            Err(_) if i >= n => {},
+            other => return fail("string:get:polars", format!("get({}) = {:?}, expected {:?} (chunks at {:?})", i, other.ok(), want.get(i), p.cuts)),
+        }
+    }
+    let fwd: Vec<Option<&str>> = view.titer().collect();
+    if fwd != want {
+        return fail("string:titer:polars", format!("titer {:?}, expected {:?}", fwd, want));
+    }
+    let h = hint_law_fwd("polars.string.titer", || view.titer(), 3)?;
+    if h != n {
+        return fail("string:titer:len", "announced length");
+    }
+    for a in 0..=n.min(12) {
+        for b in a..=n.min(12) {
+            let sl = Vec1View::slice(&view, a, b).map_err(|e| Fail { sig: "string:slice:polars".into(), detail: e.to_string() })?;
+            let got: Vec<Option<&str>> = sl.into_iter().collect();
+            if got != want[a..b] {
+                return fail("string:slice:polars", format!("slice({}, {}) has {:?}, expected {:?}", a, b, got, &want[a..b]));
+            }
+        }
+    }
+    // window-slice driver: total characters and number of nulls per window
+    let w = p.c.w.max(1);
+    let reference: Vec<i64> = (0..n)
+        .map(|i| {
+            let lo = (i + 1).saturating_sub(w);
+            want[lo..=i].iter().map(|s| s.map(|s| s.len() as i64).unwrap_or(1000)).sum()
+        })
+        .collect();
+    let got: Vec<i64> = view
+        .rolling_custom::<Vec<i64>, i64, _>(w, |s: StringChunked| s.into_iter().map(|s| s.map(|s| s.len() as i64).unwrap_or(1000)).sum(), None)
+        .ok_or_else(|| Fail { sig: "string:rolling_custom:out-path".into(), detail: "nothing returned".into() })?;
+    if got != reference {
+        return fail("string:rolling_custom:polars", format!("rolling_custom(w={}) over string windows = {:?}, the Vec reference gives {:?} (chunks at {:?})", w, got, reference, p.cuts));
+    }
+    obs.set_nontrivial(n > w && !p.cuts.is_empty() && strs.iter().any(|s| s.is_none()));
+    obs.class_if(ca.chunks().len() > 1, "multi_chunk");
+    Ok(())
+}
+
+/// Datetime columns: a Polars Datetime column of unit ns / us / ms iterated as `DateTime<unit>` must
+/// give the raw values of the column (null -> NaT) under any chunking.
+fn check_datetimes(p: &PlCase, obs: &mut Obs) -> CheckResult {
+    use tevec::export::polars::prelude::{Int64Chunked, TimeUnit};
+    use tevec::prelude::{unit, DateTime};
+    let raw: Vec<Option<i64>> = p.c.x.iter().enumerate().map(|(i, v)| v.map(|f| (f as i64).wrapping_mul(1_000_003) + i as i64 * 86_400_000)).collect();
+    let n = raw.len();
+    let mut bounds = vec![0usize];
+    bounds.extend(p.cuts.iter().cloned());
+    bounds.push(n);
+    let mut ca: Option<Int64Chunked> = None;
+    for w in bounds.windows(2) {
+        let part: Int64Chunked = raw[w[0]..w[1]].iter().cloned().collect();
+        match ca.as_mut() {
+            None => ca = Some(part),
+            Some(o) => {
+                if w[1] > w[0] {
+                    o.append(&part).unwrap();
+                }
+            },
+        }
+    }
+    let ca = ca.unwrap();
+    macro_rules! unit_check {
+        ($tu:expr, $U:ty, $name:expr) => {{
+            let dt = ca.clone().into_datetime($tu, None);
+            if GetLen::len(&dt) != n {
+                return fail(format!("datetime:{}:len:polars", $name), format!("len {} for {} instants", GetLen::len(&dt), n));
+            }
+            let got: Vec<DateTime<$U>> = TIter::<DateTime<$U>>::titer(&&dt).collect();
+            let want: Vec<DateTime<$U>> = raw.iter().map(|v| v.map(DateTime::<$U>::new).unwrap_or(DateTime::<$U>::nat())).collect();
+            if got.len() != n || got.iter().zip(want.iter()).any(|(g, w)| g.0 != w.0) {
+                return fail(format!("datetime:{}:titer:polars", $name), format!("titer of a Datetime({}) column = {:?}, raw values are {:?}", $name, got.iter().map(|d| d.0).collect::<Vec<_>>(), raw));
+            }
+        }};
+    }
+    unit_check!(TimeUnit::Nanoseconds, unit::Nanosecond, "ns");
+    unit_check!(TimeUnit::Microseconds, unit::Microsecond, "us");
+    unit_check!(TimeUnit::Milliseconds, unit::Millisecond, "ms");
+    obs.set_nontrivial(n >= 2 && raw.iter().any(|v| v.is_none()));
+    Ok(())
+}
+
 /// C02 on a Polars input: the rolling drivers with a recording, stateful callback (returned path;
 /// the *_to forms need `uset`, which the Polars backend documents as unsupported)
 fn check_drivers(p: &PlCase, obs: &mut Obs) -> CheckResult {
@@ -397,5 +511,7 @@ fn main() {
     p.add(sub("polars:rolling_two_series", 4000, 100000, pl_case, check_two));
     p.add(sub("polars:accessors_map_agg", 3000, 60000, pl_case, check_access_map_agg));
     p.add(sub("polars:drivers", 3000, 60000, pl_case, check_drivers));
+    p.add(sub("polars:string_columns", 2000, 40000, pl_case, check_strings));
+    p.add(sub("polars:datetime_columns", 2000, 40000, pl_case, check_datetimes));
     main_for(p);
 }
